@@ -718,3 +718,80 @@ theorem ctr_geodetic_loop_exits_within (h lat lon a e : ℝ) (ha : 0 < a) (he0 :
   have : ((1 : ℝ) / 50) ^ 8 * Real.pi ≤ (1 / 50) ^ 8 * 3.15 :=
     mul_le_mul_of_nonneg_left (by linarith) (by positivity)
   linarith
+
+/-! ## the reverse composition `geodetic2cart ∘ cart2geodetic` -/
+
+/-- more about the exit state on the domain: `a ≤ N ≤ a/0.99`, and the NEXT latitude `s.2.2.2` (whose cosine
+divides the z-residual of `conv_cart2geodetic_exit_inverse`) has `cos ≥ 1/46` -/
+theorem ctr_geodetic_exit_more (h lat lon a e : ℝ) (ha : 0 < a) (he0 : 0 < e) (he2 : e ^ 2 ≤ 3 / 250)
+    (hlat : |lat| ≤ 88) (hh : -(a / 300) ≤ h) :
+    let p := geodetic2cart h lat lon a e
+    let s := whileLoop (cart2geodetic_loop1_cond_any p.1 p.2.1 p.2.2 a e (e ^ 2))
+      (cart2geodetic_loop1_body p.1 p.2.1 p.2.2 a e (e ^ 2))
+      (0, 0, Complex.arg ⟨Real.sqrt (p.1 * p.1 + p.2.1 * p.2.1), p.2.2⟩ + 1,
+        Complex.arg ⟨Real.sqrt (p.1 * p.1 + p.2.1 * p.2.1), p.2.2⟩)
+    a ≤ s.1 ∧ s.1 ≤ a / (99 / 100) ∧ 1 / 46 ≤ Real.cos s.2.2.2
+    ∧ |s.2.2.1 - s.2.2.2| ≤ 1 / 1000000000000 := by
+  intro p s
+  obtain ⟨he1, hh', hw2⟩ := ctr_domain_basic a e h ha he0.le he2 hh
+  obtain ⟨hρeq, hρ, hG⟩ := ctr_geodetic_contract h lat lon a e ha he0.le he2 hlat hh
+  obtain ⟨hfix, -⟩ := ctr_geodetic_fixed h lat lon a e ha he0 he2 hlat hh
+  have he20 : 0 ≤ e ^ 2 := sq_nonneg e
+  have hρ0 : 0 < Real.sqrt (p.1 * p.1 + p.2.1 * p.2.1) := lt_of_le_of_lt (by positivity) hρ
+  obtain ⟨B, hs, hB⟩ := ctr_exit_state p.1 p.2.1 p.2.2 a e (e ^ 2) (1 / 50) hρ0 hG (by norm_num) (by norm_num)
+    (Complex.arg ⟨Real.sqrt (p.1 * p.1 + p.2.1 * p.2.1), p.2.2⟩)
+  have hs' : s = _ := hs
+  have hlaterr := ctr_aposteriori _ (1 / 50) hG (by norm_num) (lat * (Real.pi / 180)) B _ hfix hB
+  have hq : (1 : ℝ) / 1000000000000 / (1 - 1 / 50) = 50 / 49 * (1 / 1000000000000) := by norm_num
+  rw [hq] at hlaterr
+  obtain ⟨hW, hW1, -, -⟩ := ctr_W_facts (e ^ 2) (99 / 100) B he20 hw2
+  have hWp : 0 < Real.sqrt (1 - e ^ 2 * Real.sin B ^ 2) := lt_of_lt_of_le (by norm_num) hW
+  rw [hs']
+  refine ⟨?_, div_le_div_of_nonneg_left ha.le (by norm_num) hW, ?_, hB⟩
+  · simp only []
+    rw [le_div_iff₀ hWp]; nlinarith
+  · simp only []
+    have hC := ctr_cos_lb lat hlat
+    have h1 := hG B (lat * (Real.pi / 180))
+    rw [hfix] at h1
+    have h2 := Real.abs_cos_sub_cos_le (lat * (Real.pi / 180))
+      (ctr_G (Real.sqrt (p.1 * p.1 + p.2.1 * p.2.1)) p.2.2 a (e ^ 2) B)
+    rw [abs_sub_comm (lat * (Real.pi / 180))] at h2
+    have h3 := (abs_le.mp (h2.trans h1)).2
+    norm_num at hlaterr h3 hC ⊢
+    linarith
+
+/-- `geodetic2cart ∘ cart2geodetic` on a point that is the image of a domain point: x and y are reproduced exactly,
+z up to `(a + h)·5e-11` -/
+theorem ctr_cart_roundtrip (h lat lon a e : ℝ) (ha : 0 < a) (he0 : 0 < e) (he2 : e ^ 2 ≤ 3 / 250)
+    (hlat : |lat| ≤ 88) (hh : -(a / 300) ≤ h) :
+    let q := geodetic2cart h lat lon a e
+    let g := cart2geodetic q.1 q.2.1 q.2.2 a e
+    let p := geodetic2cart g.1 g.2.1 g.2.2 a e
+    p.1 = q.1 ∧ p.2.1 = q.2.1 ∧ |p.2.2 - q.2.2| ≤ (a + h) / 20000000000 := by
+  intro q g p
+  have hxy := ctr_geodetic_xy h lat lon a e ha he0.le he2 hlat hh
+  have hex := ctr_geodetic_loop_exits h lat lon a e ha he0.le he2 hlat hh
+  obtain ⟨-, hH, hden⟩ := ctr_geodetic_exit h lat lon a e ha he0 he2 hlat hh
+  obtain ⟨hN1, hN2, hcos, htol⟩ := ctr_geodetic_exit_more h lat lon a e ha he0 he2 hlat hh
+  obtain ⟨-, hx, hy, hz, -⟩ := conv_cart2geodetic_exit_inverse q.1 q.2.1 q.2.2 a e he0.ne' hxy hex hden
+  refine ⟨hx, hy, ?_⟩
+  rw [abs_sub_comm]
+  generalize whileLoop _ _ _ = s at hH hN1 hN2 hcos htol hz
+  have hz' : |q.2.2 - p.2.2| * Real.cos s.2.2.2 ≤ |s.1 * (1 - e ^ 2) + s.2.1| * |s.2.2.1 - s.2.2.2| := hz
+  have hs0 : 0 < s.1 := lt_of_lt_of_le ha hN1
+  have he20 : 0 ≤ e ^ 2 := sq_nonneg e
+  obtain ⟨hH1, hH2⟩ := abs_le.mp hH
+  have hv1 : s.1 * (1 - e ^ 2) ≤ s.1 := by nlinarith [mul_nonneg hs0.le he20]
+  have hv2 : a * (247 / 250) ≤ s.1 * (1 - e ^ 2) := by
+    have : s.1 * (247 / 250) ≤ s.1 * (1 - e ^ 2) := mul_le_mul_of_nonneg_left (by linarith) hs0.le
+    nlinarith
+  have hN2' : s.1 ≤ a * (100 / 99) := by rw [show a * (100 / 99 : ℝ) = a / (99 / 100) by ring]; exact hN2
+  have hA : |s.1 * (1 - e ^ 2) + s.2.1| ≤ 103 / 100 * (a + h) := by
+    rw [abs_le]; constructor <;> linarith
+  have hD0 : 0 ≤ |q.2.2 - p.2.2| := abs_nonneg _
+  have h1 : |q.2.2 - p.2.2| * (1 / 46) ≤ |q.2.2 - p.2.2| * Real.cos s.2.2.2 :=
+    mul_le_mul_of_nonneg_left hcos hD0
+  have h2 : |s.1 * (1 - e ^ 2) + s.2.1| * |s.2.2.1 - s.2.2.2| ≤ 103 / 100 * (a + h) * (1 / 1000000000000) :=
+    mul_le_mul hA htol (abs_nonneg _) (by linarith)
+  linarith
